@@ -55,7 +55,9 @@ main(int argc, char *argv[])
 			for (; tok.kind != TEOF; next()) {
 				printf("%d\t%d\t%d\t%zu\t%zu\t%s\t", tok.kind, tok.space, tok.hide,
 					tok.loc.line, tok.loc.col, tok.loc.file ? tok.loc.file : "");
-				if (tok.kind != TNEWLINE) {
+				if (tok.kind == TOTHER) {
+					fputs(tok.lit, stdout);  /* tokenprint has no case for TOTHER */
+				} else if (tok.kind != TNEWLINE) {
 					tok.space = false;
 					tokenprint(&tok);
 				}
